@@ -212,15 +212,18 @@ def fingerprint(trace, rej):
 def run(ctx):
     from harness.core import MachineryError
 
-    r = ctx.mc("HttpServerAbsMC", ctx.pick("HttpServerAbsMC.cfg", "HttpServerAbsMC.thorough.cfg"))
-    if not r.ok:
-        raise MachineryError("HttpServerAbs violates its own invariants: " + r.error)
-    ctx.require_actions("HttpServerAbsMC", ["Deliver", "Recv", "Seg", "SegContinue", "WriteCall", "FinishCall", "LateFinish",
-                                            "Notify", "Lose", "Pause", "Resume", "Ret", "End"])
-    run_impl_mc(ctx)
+    if _skip_mc(ctx):
+        pass
+    else:
+        r = ctx.mc("HttpServerAbsMC", ctx.pick("HttpServerAbsMC.cfg", "HttpServerAbsMC.thorough.cfg"), timeout=ctx.pick(900, 3000))
+        if not r.ok:
+            raise MachineryError("HttpServerAbs violates its own invariants: " + r.error)
+        ctx.require_actions("HttpServerAbsMC", ["Deliver", "Recv", "Seg", "SegContinue", "WriteCall", "FinishCall", "LateFinish",
+                                                "Notify", "Lose", "Pause", "Resume", "Ret", "End"])
+        run_impl_mc(ctx)
 
     traces = []
-    nbase = ctx.pick(250, 6000)
+    nbase = ctx.pick(250, 3000)
     for i in range(nbase):
         case = make_case(ctx.rng, big=(i % 10 == 0))
         ops = random_ops(ctx.rng, case)
@@ -234,7 +237,7 @@ def run(ctx):
     ctx.log("recorded %d real executions, %d events" % (len(traces), sum(len(t["ev"]) for t in traces)))
     slim = [{"cfg": t["cfg"], "ev": t["ev"]} for t in traces]
     rej = ctx.validate("HttpServerAbsTrace", slim, shard_size=ctx.pick(1500, 4000))
-    for x in rej[:20]:
+    for x in rej[:200]:
         t = traces[x.idx]
         ev = t["ev"][x.reached] if x.reached < len(t["ev"]) else None
         ctx.violation(fingerprint(t, x),
@@ -246,6 +249,17 @@ def run(ctx):
     ctx.selftest_rejects("HttpServerAbsTrace", good[-300:], mutate, n=24)
 
 
+def _skip_mc(ctx):
+    """The design-level TLC runs do not depend on the twisted tree; tools/mutant_run.sh callers may skip them
+    (VERIF_SKIP_MC=1) to re-run only the binding against a patched tree.  Never set by ./check itself."""
+    import os
+    if os.environ.get("VERIF_SKIP_MC"):
+        ctx.log("VERIF_SKIP_MC set: design-level TLC runs skipped (binding only)")
+        ctx.assumptions.append("design-level TLC runs skipped in this run (VERIF_SKIP_MC)")
+        return True
+    return False
+
+
 def run_impl_mc(ctx):
     """The channel algorithm as coded (specs/HttpServer.tla), exhaustively, against the same invariants."""
     import os
@@ -254,7 +268,7 @@ def run_impl_mc(ctx):
     if not os.path.exists(os.path.join(SPECS, "HttpServerMC.tla")):
         ctx.log("HttpServerMC not present: Impl layer skipped")
         return
-    r = ctx.mc("HttpServerMC", ctx.pick("HttpServerMC.c21.cfg", "HttpServerMC.c21.thorough.cfg"))
+    r = ctx.mc("HttpServerMC", ctx.pick("HttpServerMC.c21.cfg", "HttpServerMC.c21.thorough.cfg"), timeout=ctx.pick(900, 3000))
     if not r.ok:
         raise MachineryError("HttpServer (channel algorithm model) breaks a C21 invariant: %s\n%s" % (r.error, "".join(r.cex[-3:])[-3000:]))
 
